@@ -206,7 +206,10 @@ class LiveSetSpec(Spec):
             x, r = z3.Ints("rc!x rc!r")
             s = old.sel("_live_ops", ls)
             return [A("monotone", forall([x], z3.Implies(old.dict_has(s, x), st.dict_has(s, x)))),
-                    A("other-sets", forall([r], z3.Implies(r != s, st.dict_dom(r) == old.dict_dom(r))))]
+                    A("other-sets", forall([r], z3.Implies(r != s, st.dict_dom(r) == old.dict_dom(r)))),
+                    # (the same two clauses this unit proves of propagate_op_liveness, which the region sweep calls in a loop)
+                    A("changed-is-raised-when-something-becomes-live", forall([x], z3.Implies(z3.And(z3.Not(old.dict_has(s, x)), st.dict_has(s, x)), st.sel("changed", ls)))),
+                    A("changed-is-never-lowered", z3.Implies(old.sel("changed", ls), st.sel("changed", ls)))]
 
     def setup(self, st, inst):
         ls = st.declare_input("self", z3.Int("self"))
@@ -239,6 +242,10 @@ class LiveSetSpec(Spec):
         else:
             out += [C("observable-op-is-kept", z3.Implies(z3.Not(WBTD(o)), st.dict_has(s, o))),
                     C("op-with-live-user-is-kept", z3.Implies(self.has_live_user, st.dict_has(s, o))),
+                    # region_dce iterates the sweep until `changed` stays False: an op that becomes live in this call must raise it, or the fixpoint
+                    # loop stops before the ops that feed it (defined textually later, in a graph region) have been marked
+                    C("changed-is-raised-when-the-op-becomes-live", z3.Implies(z3.And(z3.Not(old.dict_has(s, o)), st.dict_has(s, o)), st.sel("changed", ls))),
+                    C("changed-is-never-lowered", z3.Implies(old.sel("changed", ls), st.sel("changed", ls))),
                     # observable ops may sit inside the regions of a kept op (also of a removable region op kept alive by a user): whenever the op is
                     # live after the call, liveness has been propagated into every nested region.  (Regions of an op that stays dead need not be visited.)
                     C("liveness-is-propagated-into-every-region-of-a-live-op",
